@@ -74,10 +74,21 @@ func runScopeOrder(r *core.Run) {
 		for _, b := range fn.Blocks {
 			for _, in := range b.Instrs {
 				enter, ok := in.(*ssa.Call)
-				if !ok || !isEnterScope(enter.Call.StaticCallee()) || len(enter.Call.Args) < 2 {
+				if !ok || scopeEnterVal(enter, 0) == nil || len(enter.Call.Args) < 2 {
 					continue
 				}
-				node, _, rooted := allocRoot(enter.Call.Args[1])
+				// the scope that is entered: the *Scope argument (of enterScope, or of a wrapper such as enterFunc(&m.Body.Scope, …))
+				var scopeArg ssa.Value
+				for _, a := range enter.Call.Args[1:] {
+					if isScopePtr(a.Type()) {
+						scopeArg = a
+						break
+					}
+				}
+				if scopeArg == nil {
+					continue
+				}
+				node, _, rooted := allocRoot(scopeArg)
 				if !rooted {
 					continue
 				}
